@@ -8,6 +8,7 @@ import PqlModel.Props.C05ParseStatement
 import PqlModel.Props.C03Full
 import PqlModel.Props.C02EndToEnd
 import PqlModel.Props.C05Parsed
+import PqlModel.Props.C11Compile
 #print axioms Pql.C03.C03_bare_key_rewrite
 #print axioms Pql.C03.C03_quoted_key_not_rewritten
 #print axioms Pql.C03.C03_two_conditions_anded
